@@ -1,0 +1,277 @@
+//! Verification hooks (compiled only with `--cfg mini_moka_verif`).
+//!
+//! Everything in this module is read-only with respect to the caches, except the
+//! mock clock, which replaces `Instant::now` as the time source of a cache.
+
+use crate::common::{
+    deque::{DeqNode, Deque as InnerDeque},
+    frequency_sketch::FrequencySketch,
+    time::clock::{Clock, Mock},
+    CacheRegion,
+};
+
+use std::{ptr::NonNull, sync::Arc, time::Duration};
+
+/// A manually advanced clock that can be installed into a cache.
+#[derive(Clone)]
+pub struct MockClock {
+    mock: Arc<Mock>,
+}
+
+impl Default for MockClock {
+    fn default() -> Self {
+        Self::new()
+    }
+}
+
+impl MockClock {
+    pub fn new() -> Self {
+        let (_clock, mock) = Clock::verif_mock();
+        Self { mock }
+    }
+
+    pub fn advance(&self, d: Duration) {
+        self.mock.verif_increment(d);
+    }
+
+    pub fn now(&self) -> std::time::Instant {
+        self.mock.verif_now()
+    }
+
+    pub(crate) fn to_clock(&self) -> Clock {
+        Clock::verif_from_mock(Arc::clone(&self.mock))
+    }
+}
+
+/// Per-entry metadata as physically stored by a cache.
+#[derive(Clone, Debug, Default)]
+pub struct EntryMeta {
+    pub weight: u32,
+    pub last_accessed: Option<std::time::Instant>,
+    pub last_modified: Option<std::time::Instant>,
+    /// `sync` only: the entry has been admitted by the maintenance task.
+    pub admitted: bool,
+    /// `sync` only: an update of the entry has not been applied yet.
+    pub dirty: bool,
+    /// `sync` only: identity of the shared `EntryInfo`.
+    pub info_id: usize,
+    /// `sync` only: identity of the `ValueEntry`.
+    pub entry_id: usize,
+    /// Address of the access-order node (0 if none).
+    pub ao_node: usize,
+    /// Address of the write-order node (0 if none).
+    pub wo_node: usize,
+}
+
+/// One node of an intrusive deque as found by walking it.
+#[derive(Clone, Debug, Default)]
+pub struct NodeDump {
+    pub addr: usize,
+    pub prev: usize,
+    pub next: usize,
+    /// `sync` only: identity of the `EntryInfo` the node points to.
+    pub info_id: usize,
+    pub timestamp: Option<std::time::Instant>,
+}
+
+/// The raw structure of an intrusive deque.
+#[derive(Clone, Debug, Default)]
+pub struct DequeDump {
+    pub head: usize,
+    pub tail: usize,
+    pub len: usize,
+    /// 0: no cursor, 1: cursor is `Done`, otherwise the address of the node.
+    pub cursor: usize,
+    /// Nodes found by following `next` from `head`, at most `len + 1` of them.
+    pub nodes: Vec<NodeDump>,
+}
+
+#[derive(Clone, Debug, Default)]
+pub struct SketchState {
+    pub enabled: bool,
+    pub size: u32,
+    pub sample_size: u32,
+    pub table_len: usize,
+    pub resets: u32,
+}
+
+/// An event of the maintenance task of `sync::Cache`.
+pub struct MaintEvent<'a, K> {
+    pub tag: &'static str,
+    pub key: Option<&'a K>,
+    pub info_id: usize,
+    pub a: u64,
+    pub b: u64,
+}
+
+pub type Tracer<K> = Box<dyn for<'a> Fn(&MaintEvent<'a, K>) + Send + Sync + 'static>;
+
+pub(crate) fn addr<T>(p: Option<NonNull<T>>) -> usize {
+    p.map(|p| p.as_ptr() as usize).unwrap_or(0)
+}
+
+/// Walks a deque following `next` pointers. Stops after `len + 1` nodes so that
+/// a cycle cannot make it run for ever.
+pub(crate) fn dump_deque<T>(
+    deq: &InnerDeque<T>,
+    mut f: impl FnMut(&T) -> (usize, Option<std::time::Instant>),
+    mut visit: impl FnMut(&T),
+) -> DequeDump {
+    let (head, tail, len, cursor) = deq.verif_raw();
+    let mut nodes = Vec::new();
+    let mut cur = head;
+    while let Some(p) = cur {
+        if nodes.len() > len {
+            break;
+        }
+        let node = unsafe { p.as_ref() };
+        let (prev, next) = node.verif_links();
+        let (info_id, timestamp) = f(&node.element);
+        visit(&node.element);
+        nodes.push(NodeDump {
+            addr: p.as_ptr() as usize,
+            prev: addr(prev),
+            next: addr(next),
+            info_id,
+            timestamp,
+        });
+        cur = next;
+    }
+    DequeDump {
+        head: addr(head),
+        tail: addr(tail),
+        len,
+        cursor,
+        nodes,
+    }
+}
+
+//
+// Facade over the frequency sketch
+//
+
+/// Facade over the popularity estimator.
+#[derive(Default)]
+pub struct Sketch {
+    inner: FrequencySketch,
+}
+
+impl Sketch {
+    pub fn new() -> Self {
+        Self::default()
+    }
+
+    pub fn ensure_capacity(&mut self, cap: u32) {
+        self.inner.ensure_capacity(cap);
+    }
+
+    pub fn increment(&mut self, hash: u64) {
+        self.inner.increment(hash);
+    }
+
+    pub fn frequency(&self, hash: u64) -> u8 {
+        self.inner.frequency(hash)
+    }
+
+    pub fn state(&self) -> SketchState {
+        self.inner.verif_state(true)
+    }
+
+    /// The four (table index, counter index) pairs used by `hash`.
+    pub fn positions(&self, hash: u64) -> [(usize, u8); 4] {
+        self.inner.verif_positions(hash)
+    }
+
+    pub fn table(&self) -> Vec<u64> {
+        self.inner.verif_table()
+    }
+}
+
+//
+// Facade over the intrusive deque
+//
+
+/// Facade over the intrusive doubly linked list. Nodes are named by address.
+pub struct Deque<T> {
+    inner: InnerDeque<T>,
+}
+
+impl<T> Default for Deque<T> {
+    fn default() -> Self {
+        Self::new()
+    }
+}
+
+impl<T> Deque<T> {
+    pub fn new() -> Self {
+        Self {
+            inner: InnerDeque::new(CacheRegion::MainProbation),
+        }
+    }
+
+    pub fn push_back(&mut self, elem: T) -> usize {
+        self.inner.push_back(Box::new(DeqNode::new(elem))).as_ptr() as usize
+    }
+
+    pub fn pop_front(&mut self) -> Option<T> {
+        self.inner.pop_front().map(|n| n.element)
+    }
+
+    pub fn peek_front(&self) -> Option<(usize, &T)> {
+        self.inner
+            .peek_front()
+            .map(|n| (n as *const DeqNode<T> as usize, &n.element))
+    }
+
+    /// # Safety
+    /// `node` must be the address of a node returned by `push_back`.
+    pub unsafe fn contains(&self, node: usize) -> bool {
+        self.inner.contains(&*(node as *const DeqNode<T>))
+    }
+
+    /// # Safety
+    /// `node` must be a live member of this deque.
+    pub unsafe fn move_to_back(&mut self, node: usize) {
+        self.inner
+            .move_to_back(NonNull::new_unchecked(node as *mut DeqNode<T>));
+    }
+
+    pub fn move_front_to_back(&mut self) {
+        self.inner.move_front_to_back();
+    }
+
+    /// # Safety
+    /// `node` must be a live member of this deque.
+    pub unsafe fn unlink_and_drop(&mut self, node: usize) {
+        self.inner
+            .unlink_and_drop(NonNull::new_unchecked(node as *mut DeqNode<T>));
+    }
+
+    /// Unlinks without dropping and returns the element (the node is freed here).
+    ///
+    /// # Safety
+    /// `node` must be a live member of this deque.
+    pub unsafe fn unlink(&mut self, node: usize) -> T {
+        let p = NonNull::new_unchecked(node as *mut DeqNode<T>);
+        self.inner.unlink(p);
+        Box::from_raw(p.as_ptr()).element
+    }
+
+    /// # Safety
+    /// `node` must be a live node.
+    pub unsafe fn next_of(&self, node: usize) -> usize {
+        addr(DeqNode::next_node_ptr(NonNull::new_unchecked(
+            node as *mut DeqNode<T>,
+        )))
+    }
+
+    /// Advances the built-in cursor (`Iterator for &mut Deque`).
+    pub fn iter_next(&mut self) -> Option<&T> {
+        let mut r = &mut self.inner;
+        Iterator::next(&mut r)
+    }
+
+    pub fn dump(&self, mut visit: impl FnMut(&T)) -> DequeDump {
+        dump_deque(&self.inner, |_| (0, None), |e| visit(e))
+    }
+}
